@@ -289,6 +289,17 @@ impl Default for InjectorPP {
     }
 }
 
+impl Drop for InjectorPP {
+    fn drop(&mut self) {
+        // Restore in reverse installation order: when the same function was faked more than once,
+        // a later guard saved the bytes of the earlier patch, so the earliest guard must be
+        // restored last for the original code to come back.
+        while let Some(guard) = self.guards.pop() {
+            drop(guard);
+        }
+    }
+}
+
 /// A guard that prevents injectorpp affecting the test while alive.
 ///
 /// When this guard is held, no any injectorpp instance can be created.
